@@ -98,7 +98,7 @@ def spec_value(v):
 @core.safe
 def worker(arg):
     block, seed, mod = arg
-    if mod > 1 and hash(block) % mod:
+    if not core.sampled(block, mod):
         return None
     st = tlaval.parse_state_block(block)
     if st["ph"] != 9:
